@@ -63,6 +63,8 @@ def frameOfJson (j : Json) : Except String Frame := do
   | "garbage" => pure .garbage
   | "truncated" => pure .truncated
   | "value" => pure (.value (ofLean (← j.getObjVal? "json")))
+  | "spread" => pure (.spread (ofLean (← j.getObjVal? "json")))
+  | "packed" => pure (.packed ((arrOf j "vals").toList.map ofLean))
   | k => throw s!"frame kind {k}"
 
 def textsOf (j : Json) (k : String) : Except String (List Text) := (arrOf j k).toList.mapM textOfJson
